@@ -120,7 +120,7 @@ func attribute(b []byte, npub int) int {
 // ---- rig --------------------------------------------------------------------
 
 type spec struct {
-	Mode       string `json:"mode"` // seq | conc | ovf-sub | ovf-pub
+	Mode       string `json:"mode"` // seq | conc | ovf-sub | ovf-pub | q0 | ...
 	Tr         string `json:"tr"`
 	NPub       int    `json:"npub"`
 	NSub       int    `json:"nsub"`
@@ -195,6 +195,7 @@ type rig struct {
 	nctxN  int
 	// evidence
 	filteredSeen bool
+	lossTag      string // appended to the signature of a missing delivery (names the kind's situation)
 }
 
 func (g *rig) tr(f string, a ...interface{}) {
@@ -817,7 +818,7 @@ func (g *rig) judge(cx *ctxM, got [][]byte, complete bool, dump string) bool {
 				i++
 				continue
 			}
-			g.c.Violate("sub/matching-not-delivered:"+relMatching(cx.subs, w), "%s did not deliver %x (pub%d) although it matched when it arrived, still matches, and no queue overflowed; Recv is blocked\n%s\n%s", cx.name, w, p, ctxDesc(), dump)
+			g.c.Violate("sub/matching-not-delivered:"+relMatching(cx.subs, w)+g.lossTag, "%s did not deliver %x (pub%d) although it matched when it arrived, still matches, and no queue overflowed; Recv is blocked\n%s\n%s", cx.name, w, p, ctxDesc(), dump)
 			return false
 		}
 	}
